@@ -3,7 +3,7 @@ import json
 from fractions import Fraction
 import numpy as np
 from harness import votelib as V
-from harness.common import pmap, lean_query, guard, fr, jmat, to_np
+from harness.common import pmap, lean_query, guard, fr, jmat, to_np, safe_judge
 from harness.c01 import chunks
 
 LEVEL = "proof"
@@ -46,6 +46,7 @@ def impl_batch(case):
     return {"results": out}
 
 
+@safe_judge
 def judge_rule(R, it, key, name, k, r, lean_ans, swf_ans):
     P, m, zero = it["P"], it["m"], it["zero"]
     fixer = 0 if zero else 1
@@ -165,6 +166,7 @@ def run_items(R, items, tag):
             R.count("utilitarian")
 
 
+@safe_judge
 def judge_util(R, it, r, lean_ans):
     vals, m, zero = it["vals"], it["m"], it["zero"]
     fixer = 0 if zero else 1
